@@ -4,34 +4,39 @@
                               functions.py / Axis by Gen/GenXEval.v, regenerated from the source on every run)
    ref_eval   XPath/Ref.v     XPath 1.0 semantics of the subset (tied to lxml's engine by the same check)
    deviate    XPath/Ref.v     = xlate true: the three established deviations, and nothing else, applied to e
-   in_subset  XPath/Subset.v  decidable; excludes exactly the inputs on which one of the open classes (c)-(l) occurs *)
+   in_subset  XPath/Subset.v  decidable; excludes exactly the inputs on which one of the open classes (c)(d)(e)(f)(i)(j)(k)(l) occurs *)
 From Delb.Base Require Import PyStr.
 From Delb.Tree Require Import ATree ITree.
 From Delb.XPath Require Import Ast Nav Eval Ref Subset Run EvalRef OrderFacts C06Witness.
 
 (* Full statement of DESIGN.md:  forall t ctx e nsmap, in_subset e -> NoDup (eval ...) /\ (forall n, In n (eval ...) <->
    In n (ref_eval (deviate e) ...)).  Proved as stated, with in_subset depending also on the tree and the context node
-   (the classes (c)(d)(e)(g)(h)(j) are properties of the candidates an expression meets); on in_subset the evaluator
-   does not fault, so "eval" is `Ok l`. *)
+   (the classes (c)(d)(e)(j) are properties of the candidates an expression meets); on in_subset the evaluator
+   does not fault, so "eval" is `Ok l`.  The only normalisation: the root (document) node, which XPath 1.0 can select
+   (`..` from the root element, `/.`) and no delb result can contain, is left out -- as with lxml. *)
 Theorem C06 : forall (D : itree) (m : nsmap) (e : xpath_expr) (ctx : nd),
   in_subset D m e ctx = true ->
   exists re l r, deviate m e = Some re /\ eval D m e ctx = Ok l /\ ref_eval D m re ctx = Some r /\
-                 NoDup l /\ (forall n, In n l <-> In n r).
+                 NoDup l /\ (forall n, In n l <-> In n r /\ is_doc n = false).
 Proof.
-  intros D m e ctx H. destruct (eval_is_ref D m e ctx H) as (re & l & H1 & H2 & H3 & H4).
-  exists re, l, l. repeat split; auto. eapply NoDup_map_inv. exact H4.
+  intros D m e ctx H. destruct (eval_is_ref D m e ctx H) as (re & r & H1 & H2 & H3 & H4).
+  exists re, (filter (fun n => negb (is_doc n)) r), r. repeat split; auto.
+  - apply NoDup_filter. eapply NoDup_map_inv. exact H4.
+  - apply filter_In in H0. tauto.
+  - apply filter_In in H0 as [_ H0]. apply negb_true_iff in H0. exact H0.
+  - intros [Hi Hd]. apply filter_In. split; [exact Hi|]. rewrite Hd. reflexivity.
 Qed.
 Print Assumptions C06.
 
-(* stronger form used by C14/C15: the same list, no position twice *)
+(* stronger form: the same list in the same order, minus the root node; no position twice *)
 Theorem C06_list : forall D m e ctx, in_subset D m e ctx = true ->
-  exists re l, deviate m e = Some re /\ eval D m e ctx = Ok l /\ ref_eval D m re ctx = Some l /\ NoDup (map fst l).
+  exists re r, deviate m e = Some re /\ ref_eval D m re ctx = Some r /\
+               eval D m e ctx = Ok (filter (fun n => negb (is_doc n)) r) /\ NoDup (map fst r).
 Proof. exact eval_is_ref. Qed.
 Print Assumptions C06_list.
 
 (* each axis of the evaluator is the reference axis of the deviated expression, in proximity order *)
-Theorem C06_axes : forall D a a' n, x_axis true a = Some a' -> (is_doc n = false \/ downward a = true) ->
-  d_axis D a n = (r_axis D a' n, None).
+Theorem C06_axes : forall D a a' n, x_axis true a = Some a' -> d_axis D a n = (r_axis D a' n, None).
 Proof. exact axis_agrees. Qed.
 Print Assumptions C06_axes.
 
@@ -45,7 +50,7 @@ Print Assumptions C06_predicates.
 Theorem C06_each_node_once : forall D m e ctx l, eval D m e ctx = Ok l -> NoDup (map fst l).
 Proof.
   intros D m e ctx l. unfold eval. destruct (d_paths D m e ctx) as [o f].
-  destruct (existsb is_doc o); [discriminate|]. destruct f; [discriminate|]. intro H. inversion H. apply dedup_NoDup_fst.
+  destruct f; [discriminate|]. intro H. inversion H. apply dedup_NoDup_fst.
 Qed.
 Print Assumptions C06_each_node_once.
 
@@ -95,12 +100,13 @@ Proof. vm_compute. repeat split. Qed.
 Theorem C06_f_refuted : in_subset (docnode wf_tree) wf_ns wf_expr wf_ctx = false /\
   got wf_tree wf_ns wf_expr wf_ctx = Crash TypeError.
 Proof. vm_compute. repeat split. Qed.
-Theorem C06_g_refuted : in_subset (docnode wg_tree) wg_ns wg_expr wg_ctx = false /\
-  got wg_tree wg_ns wg_expr wg_ctx = Crash TypeError /\ want wg_tree wg_ns wg_expr wg_ctx = Some [[0;0]]%nat.
+(* (g) and (h) were refutations until /repo commits c8b3442 / c9f24a8; now regression examples inside in_subset *)
+Example C06_g_fixed : in_subset (docnode wg_tree) wg_ns wg_expr wg_ctx = true /\
+  got wg_tree wg_ns wg_expr wg_ctx = Ok [[0;0]]%nat /\ want wg_tree wg_ns wg_expr wg_ctx = Some [[0;0]]%nat.
 Proof. vm_compute. repeat split. Qed.
-(* (h): `..` from the root selects the root (document) node in XPath 1.0; the evaluator raises AssertionError *)
-Theorem C06_h_refuted : in_subset (docnode wh_tree) wh_ns wh_expr wh_ctx = false /\
-  got wh_tree wh_ns wh_expr wh_ctx = Crash AssertionError /\ want wh_tree wh_ns wh_expr wh_ctx = Some [[]].
+(* `..` from the root element selects the root node in XPath 1.0; the evaluator leaves it out of the result *)
+Example C06_h_fixed : in_subset (docnode wh_tree) wh_ns wh_expr wh_ctx = true /\
+  got wh_tree wh_ns wh_expr wh_ctx = Ok [] /\ want wh_tree wh_ns wh_expr wh_ctx = Some [[]].
 Proof. vm_compute. repeat split. Qed.
 (* (i): text() is not an XPath 1.0 function (Ref.v: None); as a node test inside a predicate it would select nothing *)
 Theorem C06_i_refuted : in_subset (docnode wi_tree) wi_ns wi_expr wi_ctx = false /\
